@@ -462,7 +462,7 @@ def check_ipython(ctx, case, obs, final, scopes):
 def run_shard(ctx):
     @given(cases())
     def test(case):
-        check_case(ctx, case)
+        runner.guarded(ctx, check_case, case)
 
     runner.drive(ctx, test, ctx.n(16000, 120000))
 
